@@ -300,11 +300,9 @@ inductive Cmp where
   | onlySessionDependent      -- differs only in variables whose value reads the session (listed finding)
   | viol (cls : String)
 
-def compareBackend (c : Conn) (b : Backend) (cl : Client) (virt : Virt) : Cmp :=
-  let cs := trimSet ['"', '\'', '`'] cl.charset
-  if b.charset != cs then .viol "charset-mismatch"
-  else if tables.collationName (effectiveCollation tables c.coll247 cs cl.collation) != some b.collation then .viol "collation-mismatch"
-  else
+/-- The variables only (`SyncSessionVariables` at the start of a transaction
+    does not touch charset and collation). -/
+def compareVars (c : Conn) (b : Backend) (cl : Client) (virt : Virt) : Cmp :=
     let want := expectedVars c.v803 cl.vars.variables virt
     let have_ := sortByKey b.vars
     if have_ == want then .same
@@ -315,6 +313,12 @@ def compareBackend (c : Conn) (b : Backend) (cl : Client) (virt : Virt) : Cmp :=
       if keys.all (fun k => !(differs k) || dep.contains k) then .onlySessionDependent
       else if have_.any (fun p => !(AMap.has want p.1) && !(dep.contains p.1)) then .viol "leaked-variable"
       else .viol "stale-variable"
+
+def compareBackend (c : Conn) (b : Backend) (cl : Client) (virt : Virt) : Cmp :=
+  let cs := trimSet ['"', '\'', '`'] cl.charset
+  if b.charset != cs then .viol "charset-mismatch"
+  else if tables.collationName (effectiveCollation tables c.coll247 cs cl.collation) != some b.collation then .viol "collation-mismatch"
+  else compareVars c b cl virt
 
 def sameSettings (a b : Client) : Bool :=
   a.charset == b.charset && a.collation == b.collation && sortByKey a.vars.variables == sortByKey b.vars.variables
@@ -328,7 +332,8 @@ structure OClient where
 /-- The property on an observed history: every statement that executed did so
     on a backend session that carries exactly the executing client's settings
     (charset, collation, each variable with the value it had when the client
-    set it, nothing else); a successful preparation leaves the client's record
+    set it, nothing else), and every transaction that started did so on a
+    backend session with the client's variables; a successful preparation leaves the client's record
     alone; after a rejected SET statement the record is back to the variables
     of the client's last executed statement. -/
 def oracle (inp : Input) (out : Sexp) : String :=
@@ -371,7 +376,17 @@ def oracle (inp : Input) (out : Sexp) : String :=
               if sameSettings oc.cur new then go st dep ops' outs' else "viol client-record-changed"
             else go (st.set c { oc with cur := new }) dep ops' outs'
           | _, _, _, _ => "viol unparsable-output"
-        | .sync _ _ _, .list (.atom "sync" :: _) => go st dep ops' outs'
+        | .sync c k _, .list [.atom "sync", .atom res, _, be, _] =>
+          -- a transaction that starts does so on a backend session with the client's variables
+          if res == "ok" then
+            match backendOf be, st[c]?, inp.slots[k]? with
+            | some b, some oc, some sl =>
+              match compareVars sl.conn b oc.cur oc.virt with
+              | .viol cls => "viol " ++ cls
+              | .same => go st dep ops' outs'
+              | .onlySessionDependent => go st true ops' outs'
+            | _, _, _ => "viol unparsable-output"
+          else go st dep ops' outs'
         | _, .atom "bad" => go st dep ops' outs'
         | _, _ => "viol unparsable-output"
     go (inp.clients.map fun cl => { cur := cl, virt := [], ackRec := cl, ackVirt := [] }) false inp.ops outs
